@@ -190,7 +190,7 @@ def run(ctx):
         "Model/CodeSyntax.v is the definition of 'ordinary arithmetic precedence' (audited by parse_show)",
         "SymPy 1.14 as runtime of the printer (precedence tables, fraction, could_extract_minus_sign)")
     ctx.assume("a Float leaf denotes the decimal it carries at its declared precision (15 significant digits)",
-        "distinct symbols that share a display name inside one formula are identified (listed in coverage)",
+        "one value per printed name: the first object printed under a display name owns its variable; a DIFFERENT symbol of the same category (plain symbols/quantities, bases of indexed families, heads of applied functions) printed under the same name gets a variable of its own that no rendering can mention, so such an equation is refuted, and the clash is also reported per equation (C17:name-clash); a symbol and an indexed base may share a name (m = Sum(m[i], i))",
         "the imaginary unit, oo and heads outside the elementary functions are uninterpreted (statement holds for every "
         "interpretation); matrix products are read as commutative products of uninterpreted lists",
         "value equality is stated on the domain of definition of the ORIGINAL expression over the reals (non-zero "
